@@ -101,7 +101,12 @@ class PromiseType final : public PromiseTypeBase<V, E, Lazy, Shared> {
     return this->Add(1);
   }
   std::size_t GetRef() noexcept final {
-    return this->Get();
+    if constexpr (Shared) {
+      // The result decides ownership (e.g. moving a shared value out when we are the last holder)
+      return this->Get(std::memory_order_acquire);
+    } else {
+      return this->Get();
+    }
   }
   void DecRef() noexcept final {
     this->Sub(1);
